@@ -169,36 +169,52 @@ type DResult struct {
 	Calls      int        `json:"calls,omitempty"`
 	Mismatches []string   `json:"mismatches,omitempty"`
 	MaxOverlap int        `json:"max_overlap,omitempty"`
+	Hang       bool       `json:"hang,omitempty"`
 }
 
-// RunCases sends cases to the driver and returns results indexed like cases.
+// RunCases sends cases to the driver and returns results indexed like cases. When the
+// driver's CPU watchdog stops it at a case that does not return, that case gets a Hang
+// result and the remaining cases are run by a fresh driver process.
 func (c *Ctx) RunCases(bin string, cases []*DCase, workers int, env []string) ([]*DResult, error) {
-	arr := make([]interface{}, len(cases))
 	for i, cs := range cases {
 		cs.ID = i
-		arr[i] = cs
 	}
 	results := make([]*DResult, len(cases))
-	stderr, timedOut, err := c.W.RunDriver(bin, arr, workers, env, 30*time.Minute, func(line []byte) error {
-		r := new(DResult)
-		if err := json.Unmarshal(line, r); err != nil {
-			return err
+	pending := cases
+	for round := 0; len(pending) > 0; round++ {
+		if round > 25 {
+			return nil, fmt.Errorf("driver was stopped by its CPU watchdog more than 25 times")
 		}
-		if r.ID >= 0 && r.ID < len(results) {
-			results[r.ID] = r
+		arr := make([]interface{}, len(pending))
+		for i, cs := range pending {
+			arr[i] = cs
 		}
-		return nil
-	})
-	if timedOut {
-		return nil, fmt.Errorf("driver watchdog fired (inconclusive)")
-	}
-	if err != nil {
-		return nil, fmt.Errorf("%v: %s", err, trunc(stderr, 2000))
-	}
-	for i, r := range results {
-		if r == nil {
-			return nil, fmt.Errorf("driver returned no result for case %d", i)
+		stderr, timedOut, err := c.W.RunDriver(bin, arr, workers, env, 30*time.Minute, func(line []byte) error {
+			r := new(DResult)
+			if err := json.Unmarshal(line, r); err != nil {
+				return err
+			}
+			if r.ID >= 0 && r.ID < len(results) {
+				results[r.ID] = r
+			}
+			return nil
+		})
+		if timedOut {
+			return nil, fmt.Errorf("driver watchdog fired (inconclusive)")
 		}
+		if err != nil {
+			return nil, fmt.Errorf("%v: %s", err, trunc(stderr, 2000))
+		}
+		var next []*DCase
+		for _, cs := range pending {
+			if results[cs.ID] == nil {
+				next = append(next, cs)
+			}
+		}
+		if len(next) == len(pending) {
+			return nil, fmt.Errorf("driver returned no result for case %d: %s", next[0].ID, trunc(stderr, 500))
+		}
+		pending = next
 	}
 	return results, nil
 }
